@@ -88,6 +88,28 @@
 //   - a call of a function that may panic inside an expression (`out.Set(idx, float64(f(…)))`, `if d > f(…)`) is bound first, in
 //     evaluation order, and refused in the right operand of && / ||.
 //
+// NORMALISATIONS (work package R1): equal programs written differently are rendered as the same (definitionally equal) Lean term,
+// so that a behaviour-preserving refactoring of the source does not invalidate the tie theorems. None of them touches float arithmetic
+// (no reassociation, no commuting of operands, no dropping of `+ 0.0`):
+//   - desugar.go (applied to every file as it is loaded): `if init; cond {…}` ↦ `{ init; if cond {…} }`; `switch` (with or without a
+//     tag, `default` anywhere; no `fallthrough`, no `break`) ↦ the if-chain Go defines it to be.
+//   - SINKING (sink.go): a float64 / bool / int variable declared at the top level before the loop, never assigned again, whose
+//     defining expression reads only never-assigned parameters, constants and other such variables through pure operations is a
+//     `let` at the top of `step` / `final` (no component of `pre`): hoisting a loop-invariant expression, or moving it back into the
+//     loop, gives the same term up to zeta-reduction. BLOCK SINKING: when values are left over (assigned several times before the
+//     loop, parameters assigned there) and the statements before the loop read no series, cannot panic and read no parameter that
+//     the loop carries, ALL of them are rendered at the top of `step` (the state variables are re-bound to the incoming state
+//     afterwards) and there is no `pre` (storageRouting).
+//   - a Bool variable that is the literal true / false on its only assignment (`useAvModel := false`, `hasLateral := xs != nil` under
+//     the nil pattern of the call) is read as that literal (a dead branch is not rendered, a nil series under it is not read).
+//   - the time loop may be written on the index vector: `for idx := []int{0}; idx[0] < n; idx[0]++`.
+//   - STRUCTS of float64 / int / bool fields are flattened into one variable per field, methods are functions of their receiver
+//     (structs.go); a helper may return several values, take such structs, and hand series on whole (abstract type σ) to a function
+//     with an error result; a procedure that only prints is ignored (like the print statements themselves); `_ = e` is evaluated and
+//     dropped.
+//   - every helper function / function literal is tagged `@[gen_unfold]` (lean/OW/Gen/Attr.lean): the tie proofs unfold "whatever
+//     helpers the source has now" with `simp only [gen_unfold]` instead of naming them.
+//
 // Semantics the translation relies on (= Go's for this subset): operands are pure, so evaluation order is irrelevant
 // except for the association of float operations, which is the AST's (Go precedence, left-associative); every float64
 // operation rounds once (no fused multiply-add on amd64); assignments are emitted as shadowing `let`s in program order,
@@ -171,17 +193,19 @@ type cval struct {
 }
 
 type pkg struct {
-	dir    string
-	files  map[string]*ast.File // by file name
-	consts map[string]*ast.ValueSpec
-	cfile  map[string]*ast.File
-	cidx   map[string]int
-	memo   map[string]*cval
-	busy   map[string]bool
-	itabs  map[string]*intTab
-	funcs  map[string]*ast.FuncDecl // package-level functions (no methods)
-	ffile  map[string]*ast.File
-	types  map[string]*ast.TypeSpec
+	dir     string
+	files   map[string]*ast.File // by file name
+	consts  map[string]*ast.ValueSpec
+	cfile   map[string]*ast.File
+	cidx    map[string]int
+	memo    map[string]*cval
+	busy    map[string]bool
+	itabs   map[string]*intTab
+	funcs   map[string]*ast.FuncDecl // package-level functions (no methods)
+	ffile   map[string]*ast.File
+	methods map[string]*ast.FuncDecl // "T.m": the methods of the package's named types (receiver T or *T)
+	mfile   map[string]*ast.File
+	types   map[string]*ast.TypeSpec
 }
 
 type world struct {
@@ -192,6 +216,7 @@ type world struct {
 	current      string          // the table entry being translated
 	sliceUse     map[string]bool // table entries whose translation indexes a []float64
 	derivedUse   map[string]bool // table entries whose translation renders data.AddToFloat64Array / CopyFrom on a temporary series
+	structs      map[string]*structInfo
 }
 
 func (w *world) load(dir string) *pkg {
@@ -200,7 +225,7 @@ func (w *world) load(dir string) *pkg {
 	}
 	p := &pkg{dir: dir, files: map[string]*ast.File{}, consts: map[string]*ast.ValueSpec{}, cfile: map[string]*ast.File{},
 		cidx: map[string]int{}, memo: map[string]*cval{}, busy: map[string]bool{}, funcs: map[string]*ast.FuncDecl{},
-		ffile: map[string]*ast.File{}, types: map[string]*ast.TypeSpec{}}
+		ffile: map[string]*ast.File{}, types: map[string]*ast.TypeSpec{}, methods: map[string]*ast.FuncDecl{}, mfile: map[string]*ast.File{}}
 	w.pkgs[dir] = p
 	names, _ := filepath.Glob(filepath.Join(w.repo, dir, "*.go"))
 	sort.Strings(names)
@@ -212,12 +237,22 @@ func (w *world) load(dir string) *pkg {
 		if err != nil {
 			continue // a file that does not parse cannot contribute a kernel or a constant; the Go build reports it
 		}
+		desugarFile(f) // if-with-init and switch statements become blocks and if-chains (desugar.go)
 		p.files[filepath.Base(fn)] = f
 		for _, d := range f.Decls {
 			if fd, ok := d.(*ast.FuncDecl); ok && fd.Recv == nil {
 				if _, dup := p.funcs[fd.Name.Name]; !dup {
 					p.funcs[fd.Name.Name] = fd
 					p.ffile[fd.Name.Name] = f
+				}
+				continue
+			}
+			if fd, ok := d.(*ast.FuncDecl); ok {
+				if n := funcName(fd); n != fd.Name.Name {
+					if _, dup := p.methods[n]; !dup {
+						p.methods[n] = fd
+						p.mfile[n] = f
+					}
 				}
 				continue
 			}
@@ -444,7 +479,7 @@ func main() {
 	}
 	w := &world{repo: abs, module: string(m[1]), fset: token.NewFileSet(), pkgs: map[string]*pkg{}, partialMemo: map[string]bool{}, sliceUse: map[string]bool{}, derivedUse: map[string]bool{}}
 	var b strings.Builder
-	b.WriteString("import OW.Num\nimport OW.Gen.Prelude\n/-\nGENERATED by harness/cmd/owtranslate from the Go source of the kernels — do not edit; regenerated on every run.\n" +
+	b.WriteString("import OW.Num\nimport OW.Gen.Prelude\nimport OW.Gen.Attr\n/-\nGENERATED by harness/cmd/owtranslate from the Go source of the kernels — do not edit; regenerated on every run.\n" +
 		"One namespace per Go function: `guard` (early return before the loop), `pre` (values computed before the loop),\n" +
 		"`init` (state on loop entry), `step` (one iteration). Assignments are shadowing `let`s in program order; an `if` that\n" +
 		"cannot end the step is a merge `let phiN := if … then (…) else (…)`; an output not set on a path keeps `Num.zero`.\n-/\n" +
